@@ -234,3 +234,22 @@ Theorem C13_planar_certificate_example :
   planar_check (cons (0, 0, (2, 0), true) (cons (0, 0, (2, 0), false) nil)) = true /\
   planar_check (cons (0, 0, (2, 0), true) (cons (1, 0, (3, 0), false) nil)) = false.
 Proof. exact planar_example. Qed.
+
+(** what an ACCEPTED certificate says about the store: any two distinct left events of the
+    returned vector (no event is returned twice: C13_no_event_returned_twice) with their
+    partners are sub-segments that meet in end points of both only, or coincide completely and
+    belong to different operands *)
+From GB Require Import Cert13Store.
+Theorem C13_accepted_certificate_means_planar :
+  forall (N : Num) (cv : pt N -> option (Q * Q)) (st : store N) (evs : list eid),
+  planar_run N cv st evs = true -> NoDup evs ->
+  forall i j si sj, In i evs -> In j evs -> i <> j ->
+  seg_at N cv st i si -> seg_at N cv st j sj -> seg_rel si sj.
+Proof. exact planar_run_store. Qed.
+
+Theorem C13_seg_at_unfold :
+  forall (N : Num) (cv : pt N -> option (Q * Q)) (st : store N) (i : eid) (ax ay bx by_ : Q) (sb : bool),
+  seg_at N cv st i (ax, ay, (bx, by_), sb) <->
+  e_left (getE st i) = true /\ exists o, e_other (getE st i) = Some o /\
+    cv (e_point (getE st i)) = Some (ax, ay) /\ cv (e_point (getE st o)) = Some (bx, by_) /\ sb = e_is_subject (getE st i).
+Proof. exact seg_at_spec. Qed.
